@@ -190,6 +190,9 @@ def run(case, ctx):
             break
         if exp is not M.SKIP and len(exp) >= 2:
             multi = True
+    ok, out3 = call(obj.to_part_specs)
+    if not ok or canon(out3) != canon(out):
+        ctx.violate(f"C12/not-stable-after-use/{ktail}", f"to_part_specs() after the path was used gives {out3!r}, first {out!r}")
     if via == "spec":
         okq, eq = call(lambda: (rebuilt == obj, obj == rebuilt))
         if not okq or eq != (True, True):
